@@ -21,7 +21,7 @@ print(" ".join(out[:3]))
 PY
 )
   git -C /repo status --short | grep -v '^??' | grep -q . && { echo "repo not clean"; exit 2; }
-  git -C /repo apply $d/patch.diff || { echo "$name: patch does not apply" | tee $d/detection.log; continue; }
+  git -C /repo apply "$PWD/$d/patch.diff" || { echo "$name: patch does not apply" | tee $d/detection.log; continue; }
   { echo "# $(date -u +%FT%TZ) seed=$name checks=$checks (quick tier, VERIF_SEED=1)"; 
     for pid in $checks; do
       VERIF_SEED=1 timeout 2400 ./check $pid --tier quick 2>&1 | grep -E "^VIOLATION|^C[0-9]+:" | cut -c1-260 | head -8
